@@ -65,9 +65,30 @@ def bad_values(typ):
     return BAD.get(str(typ), BAD.get(base_type(typ), []))
 
 
+_enum_index = {}
+
+
+def enum_index():
+    """value -> list of (class, member or None) where that value is a legal member of an enumeration (attribute type or element text)"""
+    if not _enum_index:
+        for m, c in schema.all_classes():
+            if c.c_value_type and "enumeration" in c.c_value_type:
+                for v in c.c_value_type["enumeration"]:
+                    _enum_index.setdefault(v, []).append((c, None))
+            for xml_name, (member, typ, required) in c.c_attributes.items():
+                if isinstance(typ, type) and typ.c_value_type and "enumeration" in typ.c_value_type:
+                    for v in typ.c_value_type["enumeration"]:
+                        _enum_index.setdefault(v, []).append((c, member))
+    return _enum_index
+
+
 def bad_texts(spec):
     if "enumeration" in spec:
-        return ["NotInTheEnumeration"]
+        # a made-up value, and members of OTHER enumerations (legal somewhere else, not here)
+        own = set(spec["enumeration"])
+        foreign = sorted(v for v in enum_index() if v not in own)
+        pick = [v for v in ("signing", "Permit", "exact", "technical", "true") if v in foreign][:3]
+        return ["NotInTheEnumeration"] + pick
     if spec.get("base") == "list":
         return []
     return BAD.get(base_type(spec.get("base", "string")), [])
@@ -181,8 +202,27 @@ def run_case(case, ctx):
             return False
         return True
 
-    def expect_raise(make, what, sig, positions):
+    def prime(value):
+        """validate the same string first where it IS valid (plain string text, and wherever it is a legal enumeration member): the verdict
+        on the violated instance must not depend on what was validated before"""
+        from saml2_tophat import saml
+        try:
+            validate(saml.Issuer(text=value))
+            for (kc, member) in enum_index().get(value, [])[:3]:
+                k = minimal(kc)
+                if member is None:
+                    k.text = value
+                else:
+                    setattr(k, member, value)
+                validate(k)
+            hit("primings")
+        except Exception:
+            hit("priming_failed")
+
+    def expect_raise(make, what, sig, positions, prime_with=None):
         """make() -> a fresh violated instance; evaluated at the root and below each chosen parent"""
+        if prime_with is not None:
+            prime(prime_with)
         inst = make()
         hit("reject_direction")
         sigs.append(sig + ["root"])
@@ -245,6 +285,9 @@ def run_case(case, ctx):
                 return i
             expect_raise(make, "attribute %s=%r violates type %s" % (xml_name, bad, typ if not isinstance(typ, type) else typ.__name__),
                          [case["module"], case["cls"], "typed-attribute-invalid", xml_name + "=" + bad], positions)
+            expect_raise(make, "attribute %s=%r violates type %s (same string validated before where it is legal)" % (
+                xml_name, bad, typ if not isinstance(typ, type) else typ.__name__),
+                [case["module"], case["cls"], "typed-attribute-invalid-after-priming", xml_name + "=" + bad], [], prime_with=bad)
     # (2) typed text
     if cls.c_value_type:
         for bad in bad_texts(cls.c_value_type):
@@ -253,6 +296,8 @@ def run_case(case, ctx):
                 i.text = bad
                 return i
             expect_raise(make, "text %r violates %r" % (bad, cls.c_value_type), [case["module"], case["cls"], "typed-text-invalid", bad], positions)
+            expect_raise(make, "text %r violates %r (same string validated before where it is legal)" % (bad, cls.c_value_type),
+                         [case["module"], case["cls"], "typed-text-invalid-after-priming", bad], [], prime_with=bad)
     # (3) explicit occurrence bounds
     specs = {member: (ccls, is_list) for tag, member, ccls, is_list in schema.child_specs(cls)}
     for member, card in sorted(cls.c_cardinality.items()):
